@@ -87,6 +87,13 @@ def cases(draw):
         comp = {"min": None, "tol": n, "pct": None}
         eff = norm_cfg(comp)
         forced_sleep = 2.5
+    elif n >= 3 and draw(st.integers(0, 7)) == 0:
+        # decided early under a concurrency limit of 1 by an OVERSIZED first result: later branches never start, and the
+        # call is recorded with ReplayChildren (rebuilt from its children when replayed)
+        mc, is_map, forced_sleep = 1, False, None
+        kinds = ["big_ok"] + ["ok"] * (n - 1)
+        comp = {"min": 1, "tol": n, "pct": None}
+        eff = norm_cfg(comp)
     else:
         forced_sleep = None
     # construction rule for `block`: only if the policy is decided by the others alone and no tighter concurrency limit
